@@ -152,7 +152,16 @@ def summarize(out, exp):
     return ' '.join(bits)
 
 
-KINDS = {'figure_tax': k_figure_tax, 'solve': k_solve}
+def k_program(d):
+    import os, sys as _s
+    _s.path.insert(0, os.path.dirname(os.path.abspath(__file__)))
+    import replay_program
+    out = replay_program.replay(d)
+    out['reproduced'] = d['key'] in out['found']
+    return out
+
+
+KINDS = {'figure_tax': k_figure_tax, 'solve': k_solve, 'program': k_program}
 
 
 def main():
